@@ -712,6 +712,13 @@ func (in *Interp) fpMinMax(op string, a, b *Term) *Term {
 
 func (in *Interp) rsqrt(x *Term) *Term {
 	ts := in.ts
+	if x.IsConst() && x.r.Sign() >= 0 {
+		n0, d0 := x.r.Num(), x.r.Denom()
+		sn0, sd0 := new(big.Int).Sqrt(n0), new(big.Int).Sqrt(d0)
+		if !(new(big.Int).Mul(sn0, sn0).Cmp(n0) == 0 && new(big.Int).Mul(sd0, sd0).Cmp(d0) == 0) {
+			return ts.FloatConst(SReal, math.Sqrt(ratF(x)))
+		}
+	}
 	if x.IsConst() {
 		// exact for perfect squares of rationals
 		n, d := x.r.Num(), x.r.Denom()
@@ -742,8 +749,16 @@ func (in *Interp) ipow(x *Term, n int) *Term {
 	return r
 }
 
+func ratF(t *Term) float64 { f, _ := t.r.Float64(); return f }
+
 func (in *Interp) rpow(x, e *Term) *Term {
 	ts := in.ts
+	if x.IsConst() && e.IsConst() {
+		// constant arguments: exactly what the implementation computes (float64 library value)
+		if v := math.Pow(ratF(x), ratF(e)); !math.IsNaN(v) && !math.IsInf(v, 0) {
+			return ts.FloatConst(SReal, v)
+		}
+	}
 	zero, onec := in.realConst(0), in.realConst(1)
 	if e.IsConst() {
 		p, q := new(big.Int).Set(e.r.Num()), new(big.Int).Set(e.r.Denom())
@@ -803,6 +818,24 @@ func (in *Interp) rpow(x, e *Term) *Term {
 
 func (in *Interp) mathContract(f string, x *Term) *Term {
 	ts := in.ts
+	if x.IsConst() {
+		var v float64
+		switch f {
+		case "exp":
+			v = math.Exp(ratF(x))
+		case "log":
+			v = math.Log(ratF(x))
+		case "log10":
+			v = math.Log10(ratF(x))
+		case "tanh":
+			v = math.Tanh(ratF(x))
+		case "cos":
+			v = math.Cos(ratF(x))
+		}
+		if !math.IsNaN(v) && !math.IsInf(v, 0) {
+			return ts.FloatConst(SReal, v)
+		}
+	}
 	zero, onec := in.realConst(0), in.realConst(1)
 	le := func(a, b *Term) *Term { return ts.FCmp("fle", a, b) }
 	lt := func(a, b *Term) *Term { return ts.FCmp("flt", a, b) }
